@@ -54,7 +54,15 @@ func Run(c *hx.Ctx) {
 		fmt.Sscan(c.Args[6], &g.bg)
 		fmt.Sscan(c.Args[7], &g.drain)
 		fmt.Sscan(c.Args[8], &g.hold)
-		runGS(c, g)
+		g.extra = len(c.Args) > 9 && c.Args[9] == "extra"
+		reps := 1
+		if len(c.Args) > 10 {
+			fmt.Sscan(c.Args[10], &reps)
+		}
+		for i := 0; i < reps; i++ {
+			g.idle = (g.idle + 1) % 3
+			runGS(c, g)
+		}
 	}
 	if only == "" || only == "gs" {
 		for i := 0; i < c.N(45, 75); i++ {
